@@ -36,7 +36,7 @@ Print Assumptions C05_mix_selected.
 Theorem C05_inverse_mix : forall c t,
   (3 <= length (c_rules c))%nat -> tr EExecuteInverseMixModel c t ->
   let init := removelast (c_rules c) in
-  let lst := last (c_rules c) (mkER "" 0 false false false) in
+  let lst := last (c_rules c) (mkER "" 0 false false false None) in
   exists t1 t2, t = t1 ++ t2 /\ Interleave (map rule_evs init) t1 /\
     (any_fail init = true -> t2 = [] /\ call_err EExecuteInverseMixModel c = true) /\
     (any_fail init = false -> t2 = rule_evs lst /\ call_err EExecuteInverseMixModel c = efail lst).
@@ -55,7 +55,7 @@ Theorem C05_inverse_mix_selected : forall c t,
   let l := sort_desc (sel c (c_names c)) in
   (3 <= length l)%nat -> tr EExecuteSelectedRulesInverseMixModel c t ->
   let init := removelast l in
-  let lst := last l (mkER "" 0 false false false) in
+  let lst := last l (mkER "" 0 false false false None) in
   exists t1 t2, t = t1 ++ t2 /\ Interleave (map rule_evs init) t1 /\
     (any_fail init = true -> t2 = [] /\ call_err EExecuteSelectedRulesInverseMixModel c = true) /\
     (any_fail init = false ->
